@@ -295,6 +295,20 @@ impl BoundingBoxBuilder {
 //@end
 }
 
+/// R-vec-iter: `v.into_iter()` followed by `.next()` calls yields the elements of the vector in order, then None
+/// (std::vec::IntoIter); written out as a verified cursor so that the loop below is the real loop
+pub struct VecCursor { pub items: Vec<BoundingBox>, pub pos: usize }
+impl VecCursor {
+    pub fn new(v: Vec<BoundingBox>) -> (r: VecCursor) ensures r.items@ == v@, r.pos == 0 { VecCursor { items: v, pos: 0 } }
+    pub fn next(&mut self) -> (r: Option<BoundingBox>)
+        requires old(self).pos <= old(self).items@.len()
+        ensures final(self).items@ == old(self).items@,
+            old(self).pos < old(self).items@.len() ==> r == Some(old(self).items@[old(self).pos as int]) && final(self).pos == old(self).pos + 1,
+            old(self).pos >= old(self).items@.len() ==> r is None && final(self).pos == old(self).pos,
+    {
+        if self.pos < self.items.len() { let b = self.items[self.pos]; self.pos = self.pos + 1; Some(b) } else { None }
+    }
+}
 impl BoundingBox {
 //@item src/position.rs :: impl BoundingBox :: fn new
 //@ ensures
@@ -334,6 +348,42 @@ impl BoundingBox {
 //@ - r is Some ==> val(r->Some_0.x1) <= val(r->Some_0.x2) && val(r->Some_0.y1) <= val(r->Some_0.y2)     @@C12.intersect.proper
 //@ - r is Some ==> (forall|b: BoundingBox| #[trigger] encloses(*self, b) && encloses(*other, b) ==> encloses(r->Some_0, b))     @@C12.intersect.greatest @@C08.clip.intersect_greatest
 //@ - r is None ==> !(exists|b: BoundingBox| #[trigger] encloses(*self, b) && encloses(*other, b) && val(b.x1) <= val(b.x2) && val(b.y1) <= val(b.y2))     @@C12.intersect.none @@C08.clip.intersect_none
+//@end
+
+//@item src/position.rs :: impl BoundingBox :: fn intersection
+//@ replace[R-vec-iter] <<<bb_iter: impl IntoIterator<Item = Self>>>> => <<<bb_iter: Vec<Self>>>>
+//@ replace[R-vec-iter] <<<let mut bb_iter = bb_iter.into_iter();>>> => <<<let ghost g_all = bb_iter@;\n        let mut bb_iter = VecCursor::new(bb_iter);>>>
+//@ before? <<<                bb = bb?.intersect(&other);>>>
+//@ | let ghost bb0 = bb; let ghost p0 = bb_iter.pos - 1;
+//@ after? <<<                bb = bb?.intersect(&other);>>>
+//@ | proof {
+//@ |     if bb is Some {
+//@ |         assert forall|b: BoundingBox| (forall|i: int| 0 <= i < bb_iter.pos ==> encloses(#[trigger] g_all[i], b)) implies encloses(bb->Some_0, b) by {
+//@ |             assert(forall|i: int| 0 <= i < p0 ==> encloses(#[trigger] g_all[i], b));
+//@ |             assert(encloses(bb0->Some_0, b));
+//@ |             assert(encloses(g_all[p0 as int], b));
+//@ |             assert(encloses(bb0->Some_0, b) && encloses(other, b));
+//@ |         }
+//@ |     }
+//@ | }
+//@ ensures
+//@ - bb_iter@.len() == 0 ==> r is None     @@C12.intersection.of_nothing
+//@ - r is Some ==> (forall|i: int| 0 <= i < bb_iter@.len() ==> encloses(#[trigger] bb_iter@[i], r->Some_0))     @@C12.intersection.within_every_box
+//@ - r is Some ==> (forall|b: BoundingBox| (forall|i: int| 0 <= i < bb_iter@.len() ==> encloses(#[trigger] bb_iter@[i], b)) ==> encloses(r->Some_0, b))     @@C12.intersection.greatest
+//@ - bb_iter@.len() == 1 ==> r == Some(bb_iter@[0])     @@C12.intersection.single
+//@ loop 1
+//@ invariant
+//@ - bb_iter.items@ == g_all && bb_iter.pos <= g_all.len()
+//@ - g_all.len() == 0 ==> bb is None
+//@ - bb is Some ==> bb_iter.pos >= 1
+//@ - g_all.len() >= 1 ==> bb_iter.pos >= 1
+//@ - bb_iter.pos == 1 ==> bb == Some(g_all[0])
+//@ - bb is Some ==> (forall|i: int| 0 <= i < bb_iter.pos ==> encloses(#[trigger] g_all[i], bb->Some_0))     @@C12.intersection.within_every_box
+//@ - bb is Some ==> (forall|b: BoundingBox| (forall|i: int| 0 <= i < bb_iter.pos ==> encloses(#[trigger] g_all[i], b)) ==> encloses(bb->Some_0, b))     @@C12.intersection.greatest
+//@ ensures
+//@ - bb is Some ==> bb_iter.pos == g_all.len()
+//@ decreases
+//@ - g_all.len() - bb_iter.pos
 //@end
 
 //@item src/position.rs :: impl BoundingBox :: fn expand
